@@ -27,6 +27,10 @@ class RemoveDebug(SuiteTransformer):
         if not isinstance(node, ast.If):
             return False
 
+        if node.orelse:
+            # The else branch is what runs with -O, so the statement can't simply be dropped
+            return False
+
         if isinstance(node.test, ast.Name) and node.test.id == '__debug__':
             return True
 
